@@ -8,6 +8,7 @@ class Facts:
         with open(path) as f:
             d = json.load(f)
         self.raw = d
+        self.path = path
         self.config = d["config"]
         self.types = d["types"]
         self.spans = d["spans"]
